@@ -113,6 +113,16 @@ class World:
         self.objs = []
         self.kinds = []
 
+    def register_copy(self, new, kind):
+        """a composite returned by condition(...) / grid(g) comes with fresh member copies: they are objects of their
+        own (the model allocates them in this order)"""
+        if kind == "seq":
+            for m in new.transforms():
+                self.objs.append(m)
+                self.kinds.append(kind_of(m))
+        self.objs.append(new)
+        self.kinds.append(kind)
+
     def fn(self, kind, fid, gf, as_module):
         grids = self.grids
 
@@ -207,8 +217,18 @@ class World:
             new = t.condition(c=c) if op.get("kw") else t.condition(c)
             if not isinstance(new, S.SpatialTransform):
                 raise TypeError("condition() with arguments did not return a transform")
-            objs.append(new)
-            self.kinds.append(kind)
+            self.register_copy(new, kind)
+            return {}
+        if k == "grid":
+            # functional form: shallow copy (private _parameters dict; members copied for composites), then grid_
+            self.register_copy(t.grid(self.grids[op["grid"]]), kind)
+            return {}
+        if k == "data":
+            shape = data_shape(kind, self.grids[op["gfor"]])
+            arg = const_tensor(shape, op["val"])
+            if op.get("isparam"):
+                arg = Parameter(arg)
+            self.register_copy(t.data(arg), kind)
             return {}
         if k == "reset":
             t.reset_parameters()
@@ -334,22 +354,22 @@ def gen_op(rng, w, specs):
     t = w.objs[o]
     kind = w.kinds[o]
     cur = grid_id(grids, t.grid())
-    choices = ["call"] * 5 + ["disp"] * 3 + ["tensor"] * 3 + ["update"] * 2 + ["clear", "copy", "cond_", "cond", "grid_", "grid_", "inverse", "inverse"]
+    choices = ["call"] * 5 + ["disp"] * 3 + ["tensor"] * 3 + ["update"] * 2 + ["clear", "copy", "cond_", "cond", "grid", "grid_", "grid_", "inverse", "inverse"]
     if kind != "seq":
-        choices += ["data_"] * 3 + ["edit"] * 3 + ["reset", "link_", "unlink_", "cond_"]
+        choices += ["data_"] * 3 + ["edit"] * 3 + ["reset", "link_", "unlink_", "cond_", "data"]
     if FOCUS["mode"] == "inverse":
         choices = ["call"] * 6 + ["inverse"] * 5 + ["tensor", "disp", "update", "copy", "cond_", "clear"]
         if kind != "seq":
             choices += ["edit"] * 5 + ["data_"] * 2 + ["reset", "link_", "unlink_"]
     k = rng.choice(choices)
     op = {"op": k, "o": o if rng.random() < 0.985 else len(w.objs) + 1}
-    if k == "data_":
+    if k in ("data_", "data"):
         op["val"] = [dy(rng), dy(rng)]
         op["gfor"] = cur if rng.random() < 0.92 else rng.randrange(len(grids))
         op["isparam"] = rng.random() < 0.2
     elif k == "edit":
         op["val"] = [dy(rng), dy(rng)]
-    elif k == "grid_":
+    elif k in ("grid_", "grid"):
         if kind in ("ffd", "svffd") and rng.random() < 0.9:
             op["grid"] = rng.choice(FFD_NEXT.get(cur, [0, 1]))
         else:
@@ -733,6 +753,7 @@ def oracle(p):
     composite_checks(rng, grids, specs, max(20, n // 3), report, counts)
     composite_direct_checks(rng, grids, specs, max(24, n // 4), report, counts)
     expflow_sharing_checks(rng, max(24, n // 5), report, counts)
+    fit_checks(rng, max(10, n // 12), report, counts)
     # de-duplicate by key keeping the shortest history
     best = {}
     for f in fails:
@@ -895,6 +916,46 @@ def composite_checks(rng, grids, specs, n, report, counts):
                                    f"composite call differs from a freshly built composite of the members' current state by {d:.3g}", list(hist))
         except Exception as e:  # noqa
             report(f"C09:SequentialTransform:{hist[-1]['op']}:raises", f"{type(e).__name__}: {str(e)[:120]}", list(hist))
+
+
+def fit_checks(rng, n, report, counts):
+    """regressions 7f34b92 / 8d514ae: fit(flow) of a non-rigid model (2-D and 3-D): afterwards disp() matches the flow
+    and a call evaluates the fitted parameters (fresh twin), i.e. fit works on the current parameters in every iteration
+    and leaves no stale buffer behind"""
+    from deepali.data.flow import FlowFields
+    counts["fit_checks"] = 0
+    for it in range(n):
+        kind = rng.choice(["ffd", "svf", "disp", "disp"])
+        D = rng.choice([2, 3])
+        g = Grid(size=(9, 7, 5)[:D], align_corners=True)
+        case = [{"op": "fit", "kind": kind, "D": D}]
+        try:
+            c = [rng.uniform(-0.06, 0.06) for _ in range(D)]
+            target = torch.zeros((1, D) + tuple(g.shape))
+            for d in range(D):
+                target[:, d] = c[d]
+            t = make(kind, g) if kind != "ffd" else KINDS["ffd"](g, stride=2)
+            pre = rng.choice(["call", "none", "update"])
+            x = torch.rand((1, 5, D), generator=torch.Generator().manual_seed(it)) - 0.5
+            if pre == "call":
+                with torch.no_grad():
+                    t(x)
+            elif pre == "update":
+                t.update()
+            case.append({"op": pre})
+            t.fit(FlowFields(target, grid=g), steps=200 if kind != "disp" else 1, lr=0.02)
+            with torch.no_grad():
+                d1 = maxdiff(t.disp(), target)
+                tw = fresh_twin(t, kind) if kind != "ffd" else KINDS["ffd"](g, stride=2, params=t.data().detach().clone())
+                d2 = maxdiff(t(x), tw(x))
+            counts["fit_checks"] += 1
+            tol = 1e-6 if kind == "disp" else 0.02
+            if d1 > tol:
+                report(f"C09:{type(t).__name__}.fit:disp-differs-from-flow", f"after fit() disp() differs from the fitted constant flow by {d1:.3g}", case)
+            if d2 > 1e-5:
+                report(f"C09:{type(t).__name__}.fit:call-stale", f"after fit() a call differs from a fresh transform with the fitted parameters by {d2:.3g}", case)
+        except Exception as e:  # noqa
+            report(f"C09:{KINDS[kind].__name__}.fit:D{D}:raises", f"{type(e).__name__}: {str(e)[:120]}", case)
 
 
 def expflow_sharing_checks(rng, n, report, counts):
